@@ -56,9 +56,22 @@ class Adapter:
     def run_case(self, case):
         from maltoolbox.attackgraph.analyzers.apriori import calculate_viability_and_necessity
         n = case['n']
-        perms = list(itertools.permutations(range(1, n + 1)))
-        if len(perms) > self.max_orders:
-            perms = [perms[0], perms[-1]] + self.rng.sample(perms[1:-1], self.max_orders - 2)
+        if n > 6:
+            # larger graphs (Gen_AprioriBig families): stored order ascending, descending, evens-then-odds, inside-out
+            # and a few random shuffles instead of every permutation
+            ident = list(range(1, n + 1))
+            perms = [tuple(ident), tuple(reversed(ident)), tuple(ident[1::2] + ident[0::2]),
+                     tuple(x for pair in zip(ident[n // 2:], reversed(ident[:n // 2])) for x in pair) +
+                     ((ident[-1],) if n % 2 else ())]
+            for _ in range(3):
+                sh = ident[:]
+                self.rng.shuffle(sh)
+                perms.append(tuple(sh))
+            assert all(sorted(o) == ident for o in perms)
+        else:
+            perms = list(itertools.permutations(range(1, n + 1)))
+            if len(perms) > self.max_orders:
+                perms = [perms[0], perms[-1]] + self.rng.sample(perms[1:-1], self.max_orders - 2)
         res = {'steps': 0, 'div': [], 'features': sorted(case['flags'])}
         results = {}
         for order in perms:
@@ -89,13 +102,32 @@ class Adapter:
         # defaults; the property quantifies over graphs whose labels are at their initial value (DESIGN.md section 14).
         if any(case['par'][i] for i in range(n)):
             res['nontrivial'] = json.dumps([case['kind'], case['par'], case['st'], case['dist'], case.get('supp')])
+        if n > 6:
+            # keep evidence and divergence records small: the family parameters identify the graph
+            res['sample'] = {'n': n, 'family': case.get('family')}
+            if res.get('nontrivial'):
+                res['nontrivial'] = json.dumps(case.get('family'), sort_keys=True)
+            return res
         res['sample'] = {k: case[k] for k in ('n', 'kind', 'par', 'st', 'dist', 'V', 'N')}
         return res
 
     def div(self, case, comp, detail, feats):
         return {'kind': 'divergence', 'action': 'Analyse', 'component': comp, 'features': sorted(feats),
-                'detail': detail, 'case': {k: case[k] for k in ('n', 'kind', 'par', 'st', 'dist', 'V', 'N', 'flags')},
+                'detail': self.small(detail), 'case': {k: case[k] for k in ('n', 'kind', 'par', 'st', 'dist', 'V', 'N', 'flags', 'family') if k in case},
                 'adapter': 'harness.replay_apriori'}
+
+
+def _small(detail):
+    """for large graphs the report names the first nodes that differ instead of listing both label vectors"""
+    if isinstance(detail.get('want'), list) and len(detail['want']) > 12:
+        diff = [i + 1 for i, (a, b) in enumerate(zip(detail['want'], detail['got'])) if a != b]
+        head = list(detail.get('order', ()))[:8]
+        detail = {k: v for k, v in detail.items() if k not in ('want', 'got', 'order')}
+        detail.update(nodes_differing=len(diff), first_differing=diff[:8], order_head=head)
+    return detail
+
+
+Adapter.small = staticmethod(_small)
 
 
 def replay_divergence(d):
